@@ -670,5 +670,17 @@ example : Inputs.ltP (.num false 99 (-1)) (.num false 1 1) = true := by decide
 example : Spec.weekday (Spec.dayNumber 2026 9 29) = 2 ∧ Spec.weekday (Spec.dayNumber 1 1 1) = 1 :=
   ⟨Spec.weekday_dayNumber_of_fast (by decide) (by decide), by decide⟩
 
+
+/-! ### Recorded finding: seconds and the space separator
+
+`Spec.validTimeStr` / `Spec.validDateTimeStr` are the `HH:MM` and `…T HH:MM` forms, which is what the property's wording lists
+("hours 0-23, minutes 0-59") and what the code accepts.  HTML's valid time string also allows `:SS` and `:SS.sss`, and its valid
+local date and time string one space instead of `T`.  The code treats those strings as INVALID (never as another value); the
+witnesses below are the known finding `time-with-seconds-or-space-separator` of `known_findings.json`. -/
+theorem time_with_seconds_rejected :
+    Inputs.parseValue "time".toStr "10:00:00".toStr = none ∧
+    Inputs.parseValue "time".toStr "10:00:00.5".toStr = none ∧
+    Inputs.parseValue "datetime-local".toStr "2020-01-01 10:00".toStr = none := by decide
+
 end C18
 end SoupVerif
